@@ -230,6 +230,11 @@ Proof.
   eapply emits_weaken; [|apply emits_waits_only, handle_last_error_waits]. intros e He. left. left. exact He.
 Qed.
 
+Lemma emits_set_timeout call k T : emits (engine_kind call) (tls_set_timeout k T).
+Proof.
+  eapply emits_weaken; [|apply emits_waits_only, waits_set_timeout]. intros e He. left. left. exact He.
+Qed.
+
 Lemma emits_handshake_loop fuel k : emits (engine_kind 4) (handshake_loop fuel k).
 Proof.
   induction fuel as [|f IH]; cbn [handshake_loop]; [apply emits_ret|].
@@ -278,7 +283,7 @@ Qed.
    Receive makes SSL_read calls only *)
 Theorem send_only_writes : forall k size T, emits (engine_kind 2) (tls_send k size T).
 Proof.
-  intros k size T. unfold tls_send. apply emits_bind; [apply emits_upd_tls|]. intros _.
+  intros k size T. unfold tls_send. apply emits_bind; [apply emits_set_timeout|]. intros _.
   unfold tls_write. apply emits_bind; [apply emits_handle_last_error|]. intros ok.
   destruct ok; [|apply emits_ret]. apply emits_bind; [apply emits_quiet, quiet_get_ext|]. intros x.
   apply emits_bind; [apply emits_write_loop|]. intros rem. apply emits_ret.
@@ -286,7 +291,7 @@ Qed.
 
 Theorem receive_only_reads : forall k size T, emits (engine_kind 1) (tls_receive k size T).
 Proof.
-  intros k size T. unfold tls_receive. apply emits_bind; [apply emits_upd_tls|]. intros _.
+  intros k size T. unfold tls_receive. apply emits_bind; [apply emits_set_timeout|]. intros _.
   apply emits_bind.
   - unfold tls_read. apply emits_bind; [apply emits_handle_last_error|]. intros ok.
     destruct ok; [apply emits_read_loop|apply emits_ret].
